@@ -682,7 +682,8 @@ class CGenerator:
                         taganddefault = extractDefaultAndTag(line)
                         key = cleanTag(removeDefault("<<<" + taganddefault[1] + ">>>"))
                         if key in dict_key_vals:
-                            line = replaceDefault(line, dict_key_vals[key])
+                            value = dict_key_vals[key] # a count may be given as a number.
+                            line = replaceDefault(line, "" if value is None else str(value))
                         elif key in defaults_in_files_FOR:
                             line = replaceDefault(line, defaults_in_files_FOR[key])
                         else:
